@@ -529,6 +529,10 @@ func (g *g) emitGS(emit func(hxlib.Case), kind string, s *sentence) {
 	if s.where != nil && s.where.kind != 'W' && s.where.kids[len(s.where.kids)-1].kind != 'W' {
 		g.r.Count("gs-ends-in-group")
 	}
+	if !utf8.ValidString(s.render()) {
+		noModel = true // the parser model works on valid UTF-8; the monitor's expectation does not need it
+		g.r.Count("gs-utf8-valid:false")
+	}
 	emit(hxlib.Case{Lines: []string{line}, Kind: kind, NoModel: noModel, NonTrivial: want != "" && s.where != nil})
 }
 
